@@ -34,6 +34,8 @@ func main() {
 			genNeeds(seed, n, os.Args[5])
 		case "converge":
 			genConverge(seed, n, os.Args[5])
+		case "converge-ambient":
+			genConvergeAmbient(seed, n, os.Args[5])
 		case "converge-sweep":
 			genConvergeSweep(os.Args[5])
 		default:
